@@ -1,6 +1,7 @@
 """C10 — Thread-safe allocation mode (SIBLING / WHO / ORDER / REACH). See DESIGN.md section 4, C10."""
 from .common import *
 from cpv.graph import reach
+import re
 
 PLUGIN = "src/CppUTest/MemoryLeakWarningPlugin.cpp"
 SWITCHES = {
@@ -189,15 +190,50 @@ def check(ctx, run):
         locked_fns.append(ft)
         st = top_stmts(ft)
         before = [x for x in st[:idx] if ft.calls(x)]
-        rest = [render_stmt(ft, x) for i, x in enumerate(st) if i != idx]
-        base = [render_stmt(fd, x) for x in top_stmts(fd)]
-        ok = not before and rest == base
+
+        lock_sub = set()
+
+        def collect(n_):
+            lock_sub.add(n_["id"])
+            for ch in n_.get("c", []):
+                collect(ch)
+        if decl.get("init") is not None:
+            collect(decl["init"])      # calls made to compute the lock's constructor arguments belong to the lock
+
+        def signature(f, skip_types=()):
+            """per path: the calls made (callee, arguments in origin form with the function's parameters numbered) and how the path ends"""
+            pn = [q["name"] for q in f.params]
+
+            def norm(txt):
+                return re.sub(r"(?<![\w.>])[A-Za-z_]\w*(?!\w*\()", lambda m: "$%d" % pn.index(m.group(0)) if m.group(0) in pn else m.group(0), txt)
+            out = []
+            for p in enumerate_paths(f, inline=None):
+                seq = []
+                for c in path_calls(prog, f, p):
+                    if c.get("ctor") and c["ctor"]["qn"].split("::")[0] in skip_types:
+                        continue
+                    if skip_types and c["id"] in lock_sub:
+                        continue
+                    nm = prog.callee_name(f, c) or (c.get("ctor") or {}).get("qn") or "?"
+                    if nm.split("::")[0] in skip_types:
+                        continue
+                    if not f.args(c) and nm.split("::")[-1].startswith("get") and c.get("obj") is None:
+                        continue    # a parameterless accessor: it reappears in the receiver/argument renderings below
+                    recv = norm(rx(f, f.node(c["obj"]))) if c.get("obj") is not None else None
+                    seq.append((nm, recv, tuple(norm(rx(f, a)) for a in f.args(c))))
+                rv = norm(rx(f, f.node(p.ret["value"]))) if p.ret is not None and p.ret.get("value") is not None else None
+                out.append((tuple(seq), p.end, rv, tuple(sorted((norm(k), v) for k, v in origin_val(f, p).items()))))
+            return sorted(out, key=repr)
+        sig_t, sig_d = signature(ft, skip_types=(ltype,)), signature(fd)
+        delegates = all(len(seq) == 1 and seq[0] == (fd.qn, None, tuple("$%d" % i for i in range(len(fd.params)))) and (rv is None or rv.startswith(fd.name + "(")) for seq, end, rv, val in sig_t) and bool(sig_t)
+        same = sig_t == sig_d
+        ok = not before and (same or delegates)
         why = ""
         if before:
             why = "call(s) before the lock is taken: %s" % [render_stmt(ft, x) for x in before]
-        elif rest != base:
+        elif not ok:
             why = "body differs from the unlocked sibling %s" % fd.qn
-        run.ob("R2", "slot %s" % s, ft.site, ok, witness={"threadsafe": rest, "default": base, "lock": ltype}, what=why)
+        run.ob("R2", "slot %s" % s, ft.site, ok, witness={"threadsafe": [list(map(str, x[:3])) for x in sig_t], "default": [list(map(str, x[:3])) for x in sig_d], "lock": ltype, "delegates_to_sibling": delegates}, what=why)
 
     # any other function using the RAII type is also 'locked'
     # ---------------- R3 --------------------------------------------------
@@ -205,7 +241,20 @@ def check(ctx, run):
     for ft in locked_fns:
         idx, ltype, decl = lock_decl_index(prog, ft)
         ltypes.add(ltype)
+    WANT_MUTEX = "MemoryLeakWarningPlugin::getGlobalDetector()->getMutex()"
     for lt in sorted(ltypes):
+        if lt == "ScopedMutexLock":
+            # the generic RAII type used directly: every locked function must hand it the global detector's mutex
+            for ft in locked_fns:
+                idx, ltype, decl = lock_decl_index(prog, ft)
+                if ltype != lt:
+                    continue
+                ce = ft.strip(decl["init"])
+                a = ft.args(ce) if ce is not None else []
+                wit = rx(ft, a[0]) if a else None
+                run.ob("R3", "%s locks the global detector's mutex" % ft.name, ft.site, wit == WANT_MUTEX, witness=wit,
+                       what="" if wit == WANT_MUTEX else "ScopedMutexLock is not constructed from getGlobalDetector()->getMutex()")
+            continue
         ctors = [f for f in prog.methods_of(lt) if f.kind == "ctor"]
         ok = False
         wit = None
@@ -214,8 +263,8 @@ def check(ctx, run):
             for x in c.calls():
                 if x.get("ctor") and x["ctor"]["qn"] == "ScopedMutexLock::ScopedMutexLock":
                     a = c.args(x)
-                    wit = render(c, a[0]) if a else None
-                    ok = wit == "MemoryLeakWarningPlugin::getGlobalDetector()->getMutex()"
+                    wit = rx(c, a[0]) if a else None
+                    ok = wit == WANT_MUTEX
         run.ob("R3", "lock type %s locks the global detector's mutex" % lt, (ctors[0].site if ctors else lt), ok, witness=wit,
                what="" if ok else "ScopedMutexLock is not constructed from getGlobalDetector()->getMutex()")
     gm = prog.fn("MemoryLeakDetector::getMutex")
@@ -250,7 +299,8 @@ def check(ctx, run):
     run.analysed(d)
     inits = [(i.get("field"), render(c, i["expr"])) for i in c.d.get("inits", []) if i.get("written")]
     pname = c.params[0]["name"] if c.params else None
-    run.ob("R3", "ScopedMutexLock stores its argument", c.site, ("mutex", pname) in inits, witness=inits)
+    inits += [(l, render(c, r)) for (l, r, n) in assignments(c)]
+    run.ob("R3", "ScopedMutexLock stores its argument", c.site, [v for k, v in inits if k == "mutex"] == [pname], witness=inits)
     ok, w = single_call(c, "SimpleMutex::Lock", recv="mutex")
     run.ob("R3", "ScopedMutexLock ctor calls mutex->Lock() exactly once on every path", c.site, ok, witness=w)
     ok, w = single_call(d, "SimpleMutex::Unlock", recv="mutex")
@@ -263,8 +313,8 @@ def check(ctx, run):
         run.ob("R3", "%s forwards psMtx to %s exactly once" % (meth, slot), f.site, ok, witness=w)
     f = prog.fn("SimpleMutex::SimpleMutex")
     run.analysed(f)
-    a = [(l, render(f, r)) for (l, r, n) in assignments(f)]
-    run.ob("R3", "SimpleMutex ctor creates the platform mutex", f.site, ("psMtx", "PlatformSpecificMutexCreate()") in a, witness=a)
+    a = [(l, render(f, r)) for (l, r, n) in assignments(f)] + [(i.get("field"), render(f, i["expr"])) for i in f.d.get("inits", []) if i.get("written")]
+    run.ob("R3", "SimpleMutex ctor creates the platform mutex", f.site, [v for k, v in a if k == "psMtx"] == ["PlatformSpecificMutexCreate()"], witness=a)
     for slot, pfn in (("PlatformSpecificMutexLock", "pthread_mutex_lock"), ("PlatformSpecificMutexUnlock", "pthread_mutex_unlock"),
                       ("PlatformSpecificMutexCreate", "pthread_mutex_init"), ("PlatformSpecificMutexDestroy", "pthread_mutex_destroy")):
         tg = prog.slots().get(slot, set())
